@@ -345,6 +345,19 @@ func classify(c *Case, m *model, out *outcome) {
 			break
 		}
 	}
+	if narrow := narrowestCluster(m); narrow > 0 {
+		below, wide := false, false
+		for _, w := range c.Widths {
+			below = below || w < narrow
+			wide = wide || w >= 3*narrow
+		}
+		if below && c.Cfg.Lines >= 2 {
+			out.label("truncation_limit_2_or_more_and_width_below_one_cluster")
+		}
+		if below && wide && !c.Paragraph {
+			out.label("per_line_widths_mixing_wide_and_below_one_cluster")
+		}
+	}
 	for _, w := range c.Widths {
 		if w >= 1<<25-1 {
 			out.label("width_extreme")
